@@ -795,9 +795,12 @@ type pool struct {
 	timeouts int
 	cliRuns  int
 	notes    map[string]int
+	// every class-seq label seen (the merged evidence keeps only the 200 most
+	// frequent labels; this list is complete)
+	seqLabels map[string]bool
 }
 
-var thePool = &pool{notes: map[string]int{}}
+var thePool = &pool{notes: map[string]int{}, seqLabels: map[string]bool{}}
 
 const casesPerWorker = 400
 
@@ -1047,6 +1050,11 @@ func oracle(c Case) vkit.Outcome {
 	}
 	out.Labels = []string{"class=" + class, "entry=" + c.Entry + " outcome=" + outcome, "class=" + class + " outcome=" + outcome}
 	out.Labels = append(out.Labels, c.Tags...)
+	thePool.mu.Lock()
+	for _, tg := range c.Tags {
+		thePool.seqLabels[tg] = true
+	}
+	thePool.mu.Unlock()
 	if !utf8.Valid(src) {
 		out.Labels = append(out.Labels, "invalid-utf8")
 	}
@@ -1108,7 +1116,12 @@ func TestC07(t *testing.T) {
 				notes = append(notes, fmt.Sprintf("%s (x%d)", k, n))
 			}
 			sort.Strings(notes)
-			return map[string]any{"workers_started": thePool.started, "timeouts": thePool.timeouts, "cli_confirmations": thePool.cliRuns, "notes": notes}
+			seq := []string{}
+			for l := range thePool.seqLabels {
+				seq = append(seq, l)
+			}
+			sort.Strings(seq)
+			return map[string]any{"seq_labels_seen": seq, "workers_started": thePool.started, "timeouts": thePool.timeouts, "cli_confirmations": thePool.cliRuns, "notes": notes}
 		},
 	})
 }
